@@ -37,6 +37,23 @@ INVALID = ["x = (", "def f(:\n    pass\n", "if x\n    y\n", "  x = 1\n y = 2\n",
            "else:\n    pass\n", "[1, 2", "lambda", "def", "@", "x ==== y\n\n\n\nz"]
 
 
+# shapes that made some rule raise or run for ever on an earlier tree (spelling of else, several type definitions in one assignment, names
+# without ASCII letters, statements sharing a line, one-line if bodies in loops, form feeds, tabs with tab-containing strings, blank-line runs)
+REPORTED = [
+    "def f(x):\n    if x:\n        return 1\n    else :\n        return 2\nprint(f(1))\n", "def f(x):\n    if x:\n        return 1\n    else\t:\n        return 2\nprint(f(1))\n",
+    "def f(x):\n    if x:\n        return 1\n    else \\\n        :\n        return 2\nprint(f(1))\n",
+    "from typing import TypeVar, List, Dict\nT, U = TypeVar('T'), TypeVar('U')\nIntList, StrDict = List[int], Dict[str, str]\nfirst, *rest = List, 1, 2\nprint(T, U, IntList, StrDict, first, rest)\n",
+    "\u53d8\u91cf = 1\nprint(\u53d8\u91cf)\n", "def \u51fd\u6570():\n    return 1\n\n\nprint(\u51fd\u6570())\n", "gr\u00f6\u00dfe = 1\nprint(gr\u00f6\u00dfe)\n", "class \u00d1and\u00fa:\n    pass\n\n\nprint(\u00d1and\u00fa)\n",
+    "import os; import os; x = 1; print(x)\n", "x = 1; print(x); x = 2; print(x)\n",
+    "for x in xs:\n    if x: print(1)\n    else:\n        a()\n        b()\n        c()\n", "for x in xs:\n    if x: print(1); print(2)\n    else:\n        a()\n        b()\n        c()\n",
+    "\x0c\ndef f(xs):\n    for x in xs:\n        y = 100\n        print(x, y)\n", "def f(a):\n\ts = 'a\tb'\n\tfor i in a:\n\t\tk = 10\n\t\tprint(i, k, s)\n",
+    'X = """a' + "\n" * 40 + 'b"""\nprint(X)\n', "def f():\n    x = 1" + "\n" * 40 + "    return x\n" + "\n" * 40, "type X = int\nprint(X)\n", "def f[T](x: T) -> T:\n    return x\n\n\nprint(f(1))\n",
+    "def factorial_of_number(n):\n    return n * factorial_of_number(n - 1) if n else 1\n\n\ndef g(n):\n    return n * g(n - 1) if n else 1\n\n\nprint(factorial_of_number(3), g(3))\n",
+    "from __future__ import (\n    annotations,\n)\nprint(os.getcwd())\n", "# comment\nx = 1 + \\\n    2\nprint(os.getcwd(), x)\n", "s = 'a\x0cb'\nprint(os.getcwd(), s)\n",
+    "def f(): return\nfor pat in ['return {{x}}']:\n    print(pat)\n",
+]
+
+
 def containers(stmt):
     ind4 = "\n".join("    " + l for l in stmt.split("\n"))
     ind8 = "\n".join("        " + l for l in stmt.split("\n"))
@@ -59,6 +76,8 @@ def inputs(tier, seed):
             out.append(("imports", imp + "\n" + tail, True))
             out.append(("imports-indented", "\n".join("    " + l for l in (imp + "\n" + tail).splitlines()) + "\n", None))
             out.append(("imports-in-function", "def f():\n" + "\n".join("    " + l for l in imp.splitlines()) + "\n    return 1\n\n\nprint(f())\n" + imp + "\n", True))
+    for s in REPORTED:
+        out.append(("reported-shape", s, True))
     for s in INVALID:
         out.append(("invalid", s, False))
     srcs = P.corpus()
